@@ -2,7 +2,7 @@
 
 Part R (registry): histories over {new_model, read_model, rename (+/- rename_old), close, edit bundle,
 implicit current-model use} on <= 3 concurrently open models, names drawn from {None (auto), "A", "B", "C",
-the name the next backup of "A" would get, the name the next auto-named model would get, an invalid name,
+the name the next backup of "A" would get, the name the next auto-named model would get (and the one after it), an invalid name,
 the model's own name}.  The abstract registry (class Reg, pure Python) is the reference model; after each
 step the real session is compared with it:
 
@@ -73,6 +73,8 @@ class Reg:
             return ("bak", ("lit", "A"), self.bak_c + 2)
         if key == "AUTO":
             return ("auto", self.auto_c + 1)
+        if key == "AUTO2":
+            return ("auto", self.auto_c + 2)
         if key == "same":
             return self.names[i]
         if key == "bad":
@@ -153,10 +155,12 @@ class Reg:
         ops = []
         openi = sorted(self.names)
         if len(openi) < maxopen:
-            for key in (None, "A", "B", "BAK", "AUTO", "bad"):
+            for key in (None, "A", "B", "BAK", "AUTO", "AUTO2", "bad"):
                 ops.append(("new", key))
             for key in (None, "B", "BAK"):
                 ops.append(("read", key))
+        elif len(openi) == maxopen:
+            ops.append(("new", None))       # one auto-named model more: lets both next auto names be taken first (seed C19-3)
         for i in openi:
             for key in ("A", "B", "BAK", "same", "bad"):
                 for ro in (False, True):
@@ -178,7 +182,12 @@ class Reg:
         if k in ("new", "read"):
             name = self.resolve(op[1]) or (self.fresh_auto_peek() if k == "new" else ("lit", "A"))
             f.append({None: "auto-name" if k == "new" else "stored-name", "BAK": "name-is-next-backup-name",
-                      "AUTO": "name-is-next-auto-name", "bad": "invalid-name"}.get(op[1], "explicit-name"))
+                      "AUTO": "name-is-next-auto-name", "AUTO2": "name-is-second-next-auto-name",
+                      "bad": "invalid-name"}.get(op[1], "explicit-name"))
+            if k == "new" and op[1] is None and self.holder(("auto", self.auto_c + 1)) is not None:
+                f.append("next-auto-name-taken")
+                if self.holder(("auto", self.auto_c + 2)) is not None:
+                    f.append("second-next-auto-name-taken")
             if name is not None and self.holder(name) is not None:
                 f.append("name-taken")
                 if self._next_bak_taken(name):
